@@ -1067,6 +1067,15 @@ class PropertyTreeNode(MessageHandler):
 
         self.propertySet.addProperty(self)
 
+    def __deepcopy__(self, memo: dict[int, Any]) -> "PropertyTreeNode":
+        """Property nodes are referenced, never cloned.
+
+        Inherited attribute values are deep-copied; a value that refers to a task,
+        resource or shift (a dependency with options, for instance) must keep
+        pointing at the real node instead of a detached copy of the whole project.
+        """
+        return self
+
     @property
     def fullId(self) -> str:
         res = self.subId
